@@ -58,20 +58,20 @@ def build(case):
         side = case["side"]
         return M.enc_pix(M.rand_pixels(rng, side, side, "random"), side), [], (side, side), 0
     if fmt == "mge":
-        pix = M.rand_pixels(rng, 320, 200, "runs")
-        return M.enc_mge(pix, pal, case["rgb"], case["comp"], rng, "random"), [], (320, 200), 0
+        pix = M.rand_pixels(rng, 320, 200, case.get("content", "runs"))
+        return M.enc_mge(pix, pal, case["rgb"], case["comp"], rng, case.get("preset", "random")), [], (320, 200), 0
     if fmt == "rat":
-        pix = M.rand_pixels(rng, 320, 199, "runs")
-        return M.enc_rat(pix, pal, rng, "random")[0], [], (320, 199), 0
+        pix = M.rand_pixels(rng, 320, 199, case.get("content", "runs"))
+        return M.enc_rat(pix, pal, rng, case.get("preset", "random"))[0], [], (320, 199), 0
     if fmt == "cm3":
         two = case["two"]
-        pix = M.rand_pixels(rng, 320, 384 if two else 192, "vrepeat")
+        pix = M.rand_pixels(rng, 320, 384 if two else 192, case.get("content", "vrepeat"))
         return M.enc_cm3(pix, pal, two, case["pat"], rng, case["preset"]), [], (320, 384 if two else 192), 0
     if fmt == "vef":
         vt = case["vt"]
         w, h, ncol, rec, ppb = M.VEF_TYPES[vt]
-        pix = M.rand_pixels(rng, w, h, "runs", ncol)
-        return M.enc_vef(pix, pal, vt, case["sq"], rng, "random"), [], (w, h * (2 if w == 640 else 1)), 0
+        pix = M.rand_pixels(rng, w, h, case.get("content", "runs"), ncol)
+        return M.enc_vef(pix, pal, vt, case["sq"], rng, case.get("preset", "random")), [], (w, h * (2 if w == 640 else 1)), 0
     raise ValueError(fmt)
 
 
@@ -104,7 +104,7 @@ def run_case(case):
     fmt = case["fmt"]
     obs = {"counters": {"decodes": 1}, "viols": [], "sets": {"formats": [fmt]}}
     data, args, size, skip = build(case)
-    obs["key"] = "%s|%s|%s" % (fmt, size, " ".join(args))
+    obs["key"] = "%s|%s|%s|%s|%s" % (fmt, size, " ".join(args), case.get("content"), case.get("preset"))
     res = D.decode(fmt, data, args)
     cl = observe.classify(fmt, res)
     detail = {"case": case, "args": args, "input_bytes": len(data), "expected_size": size}
@@ -207,6 +207,18 @@ def cases(tier, seed):
     for vt in (0, 1, 3):
         for sq in (False, True):
             yield c(fmt="vef", vt=vt, sq=sq)
+    # compressed formats: picture contents that give long / maximal runs at the start, the end and throughout, each with
+    # the greedy ("maximal") and a random split of runs
+    for content in ("zero", "max", "flatrows", "stripes", "bottomflat", "topflat", "corners", "vrepeat", "random"):
+        for preset in ("maximal", "random"):
+            for rgb in (True, False):
+                yield c(fmt="mge", rgb=rgb, comp=True, content=content, preset=preset)
+            yield c(fmt="rat", content=content, preset=preset)
+            for vt in (0, 1, 3):
+                if not q or vt == (len(content) + len(preset)) % 3 or vt == 0:
+                    yield c(fmt="vef", vt=vt, sq=True, content=content, preset=preset)
+        for two in (False, True):
+            yield c(fmt="cm3", two=two, pat=(content < "n"), preset="mixed", content=content)
     # seeded random geometry x option sweep beyond the enumerated grid
     rng = random.Random(seed * 104729 + 5)
     for i in range(80 if q else 9000):
